@@ -184,6 +184,25 @@ EnvBad(S, v) == IF v.k # "envelope" THEN FALSE
                        \/ ~PathFrom(S, {v.type}, v.values[i].path, TRUE)
                        \/ EnvBad(S, v.values[i].value)
 
+\* the value an assignment writes has the type of the place it writes to: the last path item for a direct or index
+\* assignment, its element for an append; compared up to nullability, default, hints and scalar constraints; a
+\* disjunction accepts each of its branches, `any` accepts everything, envelopes and constants are not judged
+Bare(t) == IF ~IsType(t) THEN t
+           ELSE IF t.k = "scalar" THEN [t EXCEPT !.nullable = FALSE, !.def = VNil, !.hints = <<>>, !.cons = <<>>]
+           ELSE [t EXCEPT !.nullable = FALSE, !.def = VNil, !.hints = <<>>]
+Accepts(target, a) == \/ Bare(target) = Bare(a)
+                      \/ (IsType(target) /\ target.k = "scalar" /\ target.sk = "any")
+                      \/ (IsType(target) /\ target.k = "disj" /\ \E i \in DOMAIN target.branches : Bare(target.branches[i]) = Bare(a))
+KindName(t) == IF ~IsType(t) THEN "untyped" ELSE IF t.k = "scalar" THEN t.sk ELSE t.k
+ValueTypeV(a) ==
+  IF a.value.k # "arg" \/ a.path = <<>> THEN {}
+  ELSE LET it == a.path[Len(a.path)]
+           place == IF it.hint.k # "none" THEN it.hint ELSE it.type
+           target == IF a.method = "append" THEN (IF IsType(place) /\ place.k = "array" THEN place.elem ELSE TNone) ELSE place
+       IN IF a.method = "append" /\ ~(IsType(place) /\ place.k = "array") THEN {"append-to-" \o KindName(place)}
+          ELSE IF Accepts(target, a.value.arg.type) THEN {}
+          ELSE {a.method \o "-" \o KindName(a.value.arg.type) \o "-into-" \o KindName(target)}
+
 \* violations of one assignment; declared = names of the arguments of its option / constructor
 AssignWTV(S, b, where, a, declared) ==
   LET bad(cl, w) == {[clause |-> cl, witness |-> w, builder |-> b.name, where |-> where]}
@@ -196,6 +215,7 @@ AssignWTV(S, b, where, a, declared) ==
      \cup (IF a.value.k = "envelope" /\ ~(ValueArgs(a.value) \subseteq declared) THEN bad("ArgDeclared", "envelope") ELSE {})
      \cup (IF ~(PathArgs(a.path) \subseteq declared) THEN bad("ArgDeclared", "index") ELSE {})
      \cup (IF \E i \in DOMAIN a.cons : a.cons[i].arg.name \notin declared THEN bad("ArgDeclared", "constraint") ELSE {})
+     \cup UNION {bad("ValueType", w) : w \in ValueTypeV(a)}
 
 ArgNames(args) == {args[i].name : i \in DOMAIN args}
 BuilderWTV(S, b) ==
@@ -611,7 +631,9 @@ SameTargetV(S, pre, r, post) ==
              un == Unsel(r, b)
              olds == UNION {TargetsOf(sel[x]) : x \in DOMAIN sel}
          IN IF sel = <<>> THEN {}
-            ELSE IF Counterparts(b, post) = {} THEN V("SameTarget", "builder-lost")
+            ELSE IF Counterparts(b, post) = {}
+                 THEN (IF \E j \in DOMAIN post : post[j].name = b.name /\ post[j].pkg = b.pkg THEN {}   \* builder level changed: UnselectedUnchanged reports it
+                       ELSE V("SameTarget", "builder-lost"))
             ELSE IF \E j \in Counterparts(b, post) :
                       LET produced == {o \in Range(post[j].options) : Count(post[j].options, o) > Count(un, o)}
                           news == UNION {TargetsOf(o) : o \in produced}
@@ -655,6 +677,24 @@ Defined(S, pre, r) ==
   \A i \in DOMAIN pre : \A o \in Range(SelOpts(r, pre[i])) :
        LET st == FirstArgStruct(S, o) IN st.k = "struct" => PickFields(st, r.fields) # <<>>
 
+\* promote_options_to_constructor: "both arguments and assignments described by the options will be exposed in the
+\* builder's constructor" - the constructor gains the option's first assignment as it is (path, value, method, constraints)
+PromoteV(S, pre, r, post) ==
+  UNION {LET b == pre[i] IN
+         IF ~BSel(S, r.sel, b) THEN {}
+         ELSE UNION {LET hits == {x \in DOMAIN b.options : SameFold(b.options[x].name, r.options[n])} IN
+                     IF hits = {} THEN {}
+                     ELSE LET o == b.options[CHOOSE x \in hits : \A y \in hits : x <= y] IN
+                          IF o.assigns = <<>> \/ o.args = <<>> THEN {}
+                          ELSE IF \E j \in DOMAIN post : post[j].name = b.name /\ post[j].pkg = b.pkg /\ post[j].for = b.for
+                                                        /\ o.assigns[1] \in Range(post[j].ctor.assigns) THEN {}
+                          ELSE IF \E j \in DOMAIN post : post[j].name = b.name /\ post[j].pkg = b.pkg /\
+                                    \E c \in Range(post[j].ctor.assigns) : PathIds(c.path) = PathIds(o.assigns[1].path)
+                               THEN V("PromoteKeepsAssignment", "assignment-rebuilt:" \o o.assigns[1].method \o "-" \o o.assigns[1].value.k)
+                          ELSE V("PromoteKeepsAssignment", "assignment-missing")
+                     : n \in DOMAIN r.options}
+         : i \in DOMAIN pre}
+
 \* well-typedness is judged on the step that breaks it
 WellTypedV(S, pre, post) ==
   IF WTV(S, pre) # {} THEN {}
@@ -667,6 +707,7 @@ StepViolated(S, pre, r, post) ==
   \cup (IF r.r = "omit" THEN OmitV(S, pre, r, post) ELSE {})
   \cup (IF r.r = "rename" \/ (r.kind = "o" /\ r.r = "rename_arguments") THEN RenameV(S, pre, r, post) ELSE {})
   \cup (IF r.r = "duplicate" THEN DuplicateV(S, pre, r, post) ELSE {})
+  \cup (IF r.kind = "b" /\ r.r = "promote" THEN PromoteV(S, pre, r, post) ELSE {})
   \cup (IF r.kind = "o" /\ r.r \in SameTargetRules THEN SameTargetV(S, pre, r, post) ELSE {})
   \cup (IF r.kind = "o" /\ r.r \in {"struct_fields_as_options", "struct_fields_as_arguments"} THEN FieldTargetsV(S, pre, r, post) ELSE {})
 (* ============ growth item 2: nil checks (GenerateBuilderNilChecks) ======== *)
